@@ -49,13 +49,29 @@ theorem remove_ordered (ms : Ranges) (len : Nat) (h : Chain len 0 ms) : Ordered 
 theorem tiles_ordered (rs : Ranges) (len from_ : Nat) (h : Tiles len from_ rs) : Ordered len from_ rs :=
   Kitoken.Proofs.Split.tiles_ordered rs len from_ h
 
-/-- Every boundary of every behaviour's output is 0, the text length or a match boundary, so
-    character alignment of the matches is inherited by the output. -/
+/- Original statement, FALSE as written: for an empty text `Split.split` answers `some []` without
+   consulting the pattern stage, so with `ext.findIter = fun _ _ => none`, `p = .regex ""`, `text = []`
+   the hypothesis holds (`out = []`) while `splitPattern ext text p = none`.
+
 theorem boundaries_subset (ext : SplitExt) (p : SplitPattern) (b : SplitBehavior) (text : Bytes) (out : Ranges)
     (h : (Split.pattern p b).split ext text = some out) :
     ∃ ms, splitPattern ext text p = some ms ∧
+      ∀ r ∈ out, r.1 ∈ boundariesOf ms text.length ∧ r.2 ∈ boundariesOf ms text.length
+-/
+
+/-- Every boundary of every behaviour's output is 0, the text length or a match boundary, so
+    character alignment of the matches is inherited by the output. (Hypothesis `text ≠ []` added,
+    see above; for the empty text the output is empty, `split_empty_text`.) -/
+theorem boundaries_subset_partial (ext : SplitExt) (p : SplitPattern) (b : SplitBehavior) (text : Bytes)
+    (out : Ranges) (hne : text ≠ []) (h : (Split.pattern p b).split ext text = some out) :
+    ∃ ms, splitPattern ext text p = some ms ∧
       ∀ r ∈ out, r.1 ∈ boundariesOf ms text.length ∧ r.2 ∈ boundariesOf ms text.length :=
-  Kitoken.Proofs.Split.boundaries_subset ext p b text out h
+  Kitoken.Proofs.Split.boundaries_subset_partial ext p b text out hne h
+
+/-- The case excluded above: every split of the empty text returns no ranges. -/
+theorem split_empty_text (ext : SplitExt) (sp : Split) (out : Ranges) (h : sp.split ext [] = some out) :
+    out = [] :=
+  Kitoken.Proofs.Split.split_empty ext sp out h
 
 /-! ### literal patterns -/
 
@@ -68,6 +84,25 @@ theorem literal_matches_chain (needle text : Bytes) :
     (holds after the F1 repair; the old 1-byte variant differs, see the example below). -/
 theorem char_eq_string (ext : SplitExt) (c : Char) (text : Bytes) :
     splitPattern ext text (.char c) = splitPattern ext text (.string (Utf8.encodeChar c)) := rfl
+
+/-- Non-vacuity: the old 1-byte character match differs from the repaired one on the 3-byte
+    character '▁' (E2 96 81) in "a▁b". -/
+example (ext : SplitExt) :
+    splitPatternCharOld [0x61, 0xE2, 0x96, 0x81, 0x62] '▁' = [(1, 2)] ∧
+    splitPattern ext [0x61, 0xE2, 0x96, 0x81, 0x62] (.char '▁') = some [(1, 4)] := by
+  have enc : Utf8.encodeChar '▁' = [0xE2, 0x96, 0x81] := by decide
+  simp [splitPatternCharOld, splitPattern, enc, findAll, findAllFrom, startsWith]
+
+/-- Non-vacuity: the six behaviours on matches `[(3,4),(7,8),(8,9)]` in a text of 12 bytes
+    (Match returns the matches themselves). -/
+example :
+    invert [(3,4),(7,8),(8,9)] 12 = [(0,3),(4,7),(9,12)] ∧
+    expand [(3,4),(7,8),(8,9)] 12 = [(0,3),(3,4),(4,7),(7,8),(8,9),(9,12)] ∧
+    expand (merge [(3,4),(7,8),(8,9)]) 12 = [(0,3),(3,4),(4,7),(7,9),(9,12)] ∧
+    mergeLeft [(3,4),(7,8),(8,9)] 12 = [(0,4),(4,8),(8,9),(9,12)] ∧
+    mergeRight [(3,4),(7,8),(8,9)] 12 = [(0,3),(3,7),(7,8),(8,12)] ∧
+    Chain 12 0 [(3,4),(7,8),(8,9)] := by
+  refine ⟨by decide, by decide, by decide, by decide, by decide, by simp [Chain]⟩
 
 /-! ### one split stage and chains -/
 
